@@ -211,6 +211,95 @@ def structural_positions(buf, base=0, depth=0):
     return sorted(set(out))
 
 
+def parse_tree(buf, depth=0):
+    """[(tag, children-or-None, body)] for a concatenation of TLVs"""
+    out = []
+    pos = 0
+    while pos < len(buf):
+        tag, body, nxt = rd.read_tlv(buf, pos)
+        kids = None
+        if tag in (0x30, 0xa0, 0xa1) or (tag == 0x04 and len(body) > 2
+                                          and body[0] == 0x30 and depth < 4):
+            try:
+                kids = parse_tree(body, depth + 1)
+            except rd.Bad:
+                kids = None
+        out.append((tag, kids, body))
+        pos = nxt
+    return out
+
+
+def enc_node(node):
+    tag, kids, body = node
+    if isinstance(node, RawNode):
+        return node.raw
+    if kids is not None:
+        body = b"".join(enc_node(k) for k in kids)
+    return rd.tlv(tag, body)
+
+
+class RawNode(tuple):
+    """a node whose bytes are given verbatim (e.g. wrong declared length)"""
+    def __new__(cls, raw):
+        o = tuple.__new__(cls, (0, None, b""))
+        o.raw = raw
+        return o
+
+
+def tree_mutants(data):
+    """one structural edit anywhere in the TLV tree, with the lengths of all
+    enclosing structures re-computed so that the outer framing stays
+    consistent (a plain byte edit cannot produce these)"""
+    try:
+        roots = parse_tree(data)
+    except rd.Bad:
+        return
+
+    def variants(node):
+        tag, kids, body = node
+        real = b"".join(enc_node(k) for k in kids) if kids is not None else body
+        yield []                                        # node removed
+        yield [node, node]                              # duplicated
+        yield [(tag, None, b"")]                        # body emptied
+        yield [(tag, None, real[:1])]
+        yield [(tag, None, real[:-1])]
+        yield [(tag, None, real + b"\x00")]
+        yield [(tag, None, b"\x00" + real)]
+        for t in (0x02, 0x03, 0x04, 0x05, 0x06, 0x30, 0x31, 0xa0, 0xa1, 0xa2,
+                  0x80):
+            if t != tag:
+                yield [(t, None, real)]
+        # declared length off by one / far too large, bytes unchanged
+        for dl in (-1, 1, 2, 0x7f):
+            ln = len(real) + dl
+            if ln >= 0:
+                yield [RawNode(bytes([tag]) + rd.enc_len(ln) + real)]
+        # non-minimal length forms
+        if len(real) < 0x80:
+            yield [RawNode(bytes([tag, 0x81, len(real)]) + real)]
+        yield [RawNode(bytes([tag, 0x80]) + real)]
+        yield [RawNode(bytes([tag]))]                   # tag only
+        yield [RawNode(bytes([tag, 0x01]))]             # length, no content
+
+    def walk(nodes, rebuild):
+        for i, node in enumerate(nodes):
+            for rep in variants(node):
+                yield rebuild(nodes[:i] + rep + nodes[i + 1:])
+            tag, kids, body = node
+            if kids is not None:
+                def rb(newkids, i=i, tag=tag):
+                    return rebuild(nodes[:i] + [(tag, newkids, b"")] +
+                                   nodes[i + 1:])
+                for m in walk(kids, rb):
+                    yield m
+
+    seen = set()
+    for m in walk(roots, lambda ns: b"".join(enc_node(n) for n in ns)):
+        if m not in seen and m != data:
+            seen.add(m)
+            yield m
+
+
 def mutants1(data, subst_alpha_at):
     """all 1-deviation mutants; subst_alpha_at(i) -> alphabet for position i"""
     n = len(data)
@@ -247,6 +336,16 @@ def shard_mut1(arg):
             sh.hist["fail:" + bad[0]] += 1
             sh.violation("bytes", bad[0], dict(cref=cref, ep=ep, data=m),
                          bad[1], bad[2])
+    if "der" in seed_name:
+        for m in tree_mutants(data):
+            sh.n += 1
+            sh.nt += 1
+            sh.hist["tree-mutants"] += 1
+            bad = call_case(cref, ep, m)
+            if bad:
+                sh.hist["fail:" + bad[0]] += 1
+                sh.violation("bytes", bad[0], dict(cref=cref, ep=ep, data=m),
+                             bad[1], bad[2])
     # the seed itself must be accepted
     sh.n += 1
     fn, allowed = eps_for(cref)[ep]
@@ -436,7 +535,10 @@ def main(ctx):
         "through ECDH loaders and verify) on %d toy and %d real curves: ALL "
         "1-deviation mutants (substitute any of 256 values [real curves: 256 "
         "at tag/length octets, Sigma elsewhere], delete, truncate, insert, "
-        "append), 2-deviation mutants over tag/length octets x Sigma^2; (c) "
+        "append), every single structural edit of the TLV tree with enclosing "
+        "lengths re-computed (node removed / duplicated / emptied / cut / "
+        "padded / retagged / wrong or non-minimal declared length), "
+        "2-deviation mutants over tag/length octets x Sigma^2; (c) "
         "PEM text mutations (armour, labels, per-character edits; bytes and "
         "str). Oracle: returns a usable object or raises a documented class "
         "for that entry point, and terminates (30 s watchdog). All cases are "
